@@ -64,7 +64,7 @@ def plan(tier, seed):
 def floors(tier):
     return {"distinct_nontrivial": 300, "op:new": 3000, "op:sym": 1000, "op:rule": 500, "op:clear": 300, "op:query": 3000,
             "cls:undecorated_subclass": 500, "cls:hand_written": 500, "cls:query_after_clear": 200,
-            "cls:inferred_instances_queried": 300, "op:predq": 300, "re:cls:no_domain_spelling:.*name.*": 500, "re:cls:no_domain_spelling:T\\(\\)": 500, "op:abandon": 300, "op:exc": 200, "op:newclass": 150, "op:pred_raises": 100, "op:toggle_caching": 100, "op:block_nodomain": 60, "cls:live_iterator_started_in": 100, "cls:live_iterator_started_out": 100, "queries_with_subclass_instances": 300}
+            "cls:inferred_instances_queried": 300, "op:predq": 300, "re:cls:no_domain_spelling:.*name.*": 500, "re:cls:no_domain_spelling:T\\(\\)": 500, "op:abandon": 300, "op:exc": 200, "op:newclass": 150, "op:pred_raises": 100, "op:toggle_caching": 100, "op:block_nodomain": 60, "op:bulk": 100, "op:termq": 100, "cls:live_iterator_started_in": 100, "cls:live_iterator_started_out": 100, "queries_with_subclass_instances": 300}
 
 
 def gen_case(rng):
@@ -106,6 +106,12 @@ def gen_case(rng):
             ops.append(["block_nodomain", rng.randrange(ncls), rng.randrange(ncls)])
         else:
             ops.append(["query", rng.choice(["main", "main", "out"]), rng.randrange(ncls)])
+    if rng.random() < 0.05:
+        # SIZE: 130-220 instances of one class are constructed in one go (the registry walk, its blocks and its groupings get long),
+        # then queried - also with a term whose plain field value is equal to the stored one without being the same object
+        pos = rng.randrange(len(ops) + 1)
+        c_ = rng.randrange(ncls)
+        ops[pos:pos] = [["bulk", c_, rng.randint(130, 220)], ["query", "main", c_], ["termq", c_, rng.randint(0, 100)]]
     ops.append(["query", "main", 0])
     if any(o[0] == "rule" for o in ops) and rng.random() < 0.5:
         # ... and over the classes of the inferred instances (which rule fired into which class varies: both are asked)
@@ -186,6 +192,23 @@ def check_case(case, ctx):
                 break
             log.append(o)
             history.append(["new", cls.__name__, getattr(o, "n", None)])
+        elif op[0] == "bulk":
+            cls = main[op[1]]
+            for j in range(op[2]):
+                log.append(cls(n=1000 + j))
+            history.append(["bulk", cls.__name__, op[2]])
+        elif op[0] == "termq":
+            # a predicate-form term without a domain and with a plain field value: T(n=v), v a number computed here
+            cls = main[op[1]]
+            v = 1000 + op[2]
+            want = [o for o in log if isinstance(o, cls) and o.n == v]
+            with symbolic_mode():
+                q = an(entity(cls(n=1000 + op[2])))
+            got = list(q.evaluate())
+            history.append(["termq", cls.__name__, v, len(got), len(want)])
+            if Counter(map(id, got)) != Counter(map(id, want)):
+                fail = {"what": "TERM_QUERY_WITH_PLAIN_FIELD_VALUE", "class": cls.__name__, "value": v, "expected": len(want), "observed": len(got)}
+                break
         elif op[0] == "sym":
             cls = main[op[1]]
             before = Counter(counters)
